@@ -149,8 +149,10 @@ def check_c17(ctx, R):
     repl = None
     keep_pred = None
     for n in walk_local(fix.node):
-        if isinstance(n, ast.If) and isinstance(n.test, ast.UnaryOp) and isinstance(n.test.op, ast.Not) and "identifier[i]" in norm(n.test):
+        mm = re.search(r"identifier\[(\w+)\]", norm(n.test)) if isinstance(n, ast.If) else None
+        if isinstance(n, ast.If) and isinstance(n.test, ast.UnaryOp) and isinstance(n.test.op, ast.Not) and mm and mm.group(1) != "0":
             keep_pred = n.test.operand
+            keep_var = "identifier[%s]" % mm.group(1)
             for a in ast.walk(n):
                 if isinstance(a, ast.Assign) and isinstance(a.value, ast.BinOp):
                     consts = [c.value for c in ast.walk(a.value) if isinstance(c, ast.Constant) and isinstance(c.value, str)]
@@ -165,7 +167,7 @@ def check_c17(ctx, R):
     else:
         R.bad("I1", "%s|replacement|%s" % (fix.key, repl), fix.loc(), "_characters_fix replaces illegal characters with %r, which the reader's class rejects" % repl)
     try:
-        kept = {c for c in DOMAIN if eval_pred(keep_pred, c, "identifier[i]")}
+        kept = {c for c in DOMAIN if eval_pred(keep_pred, c, keep_var)}
     except _Unknown as ex:
         raise AnalysisError("I1: repair predicate `%s` is outside the evaluator" % ex)
     if kept - rb:
